@@ -11,6 +11,51 @@ import warnings  # noqa: E402
 warnings.filterwarnings("ignore", category=DeprecationWarning)
 
 
+class Runaway(BaseException):
+    """A driver program exceeded its budget of wall-clock time or memory growth (see `budget`)."""
+
+
+def _rss():
+    try:
+        with open("/proc/self/statm") as f:
+            return int(f.read().split()[1]) * 4096
+    except Exception:  # noqa: BLE001
+        return 0
+
+
+import contextlib  # noqa: E402
+
+
+@contextlib.contextmanager
+def budget(seconds=None, grow_gb=3.0):
+    """Bound one in-process driver program: driver programs take milliseconds; an implementation that loops for ever or
+    accumulates without bound (a system re-run endlessly, ...) must end the program, not the machine.  A one-second
+    interval timer raises Runaway in the main thread when the program has run for `seconds` (default 60, env
+    VERIF_PROGRAM_BUDGET_S) or the process has grown by `grow_gb`.  No-op outside the main thread."""
+    import signal
+    import threading
+    import time
+    if threading.current_thread() is not threading.main_thread():
+        yield
+        return
+    limit = seconds if seconds is not None else float(os.environ.get("VERIF_PROGRAM_BUDGET_S", "60"))
+    t0, r0 = time.time(), _rss()
+
+    def handler(signum, frame):
+        if time.time() - t0 > limit:
+            raise Runaway("the program did not end within %.0f s" % limit)
+        if _rss() - r0 > grow_gb * 2 ** 30:
+            raise Runaway("the process grew by more than %.1f GB while the program ran" % grow_gb)
+
+    old = signal.signal(signal.SIGALRM, handler)
+    signal.setitimer(signal.ITIMER_REAL, 1.0, 1.0)
+    try:
+        yield
+    finally:
+        signal.setitimer(signal.ITIMER_REAL, 0)
+        signal.signal(signal.SIGALRM, old)
+
+
 def run_isolated(module, func, args_list, timeout=90, workers=8, retries=1):
     """Run harness.drivers.<module>.<func>(arg) for every arg in its own fresh, single-threaded interpreter.
 
@@ -21,7 +66,8 @@ def run_isolated(module, func, args_list, timeout=90, workers=8, retries=1):
     import json
     import subprocess
     root = os.path.dirname(os.path.dirname(os.path.dirname(os.path.abspath(__file__))))
-    code = ("import sys, json; sys.path.insert(0, %r); from harness.drivers import %s as M; "
+    code = ("import sys, json, resource; resource.setrlimit(resource.RLIMIT_AS, (24 * 2 ** 30, 24 * 2 ** 30)); "
+            "sys.path.insert(0, %r); from harness.drivers import %s as M; "
             "print('\\n@@RESULT@@' + json.dumps(M.%s(json.load(sys.stdin))))" % (root, module, func))
     env = dict(os.environ)
     env["VERIF_REPO"] = REPO
